@@ -725,7 +725,7 @@ func callBoundedGoroutine(gi *ssa.Go, parent *ssa.Function) (bool, string) {
 			if !isD || calleeOf(&d.Call).Builtin != "close" {
 				return
 			}
-			if u, ok := stripConv(d.Call.Args[0]).(*ssa.UnOp); ok && u.X == ssa.Value(cell) && (dominatesInstr(d, gi)) {
+			if u, ok := stripConv(d.Call.Args[0]).(*ssa.UnOp); ok && u.X == ssa.Value(cell) && (dominatesInstr(d, gi) || registeredRightAfter(gi, d)) {
 				closed = true
 			}
 		})
@@ -734,4 +734,33 @@ func callBoundedGoroutine(gi *ssa.Go, parent *ssa.Function) (bool, string) {
 		}
 	}
 	return false, ""
+}
+
+// registeredRightAfter: the defer follows the go statement in the same block with nothing in between that could return,
+// panic or block (only reads of local variable cells): the close is registered before anything can go wrong.
+func registeredRightAfter(gi *ssa.Go, d *ssa.Defer) bool {
+	if gi.Block() != d.Block() {
+		return false
+	}
+	after := false
+	for _, in := range gi.Block().Instrs {
+		if in == ssa.Instruction(gi) {
+			after = true
+			continue
+		}
+		if !after {
+			continue
+		}
+		if in == ssa.Instruction(d) {
+			return true
+		}
+		u, ok := in.(*ssa.UnOp)
+		if !ok || u.Op != token.MUL {
+			return false
+		}
+		if _, isCell := u.X.(*ssa.Alloc); !isCell {
+			return false
+		}
+	}
+	return false
 }
